@@ -192,6 +192,12 @@ class Report:
         self.cov = {"states": 0, "transitions": 0, "traces_validated_against_impl": 0, "samples": [],
                     "evaluations": 0, "distinct_nontrivial": 0, "rule": "", "exhaustive": False}
         self.assumptions = []
+        # replay files of earlier runs of this property would be mistaken for this run's
+        rdir = os.path.join(OUTDIR, "replays")
+        if os.path.isdir(rdir):
+            for f in os.listdir(rdir):
+                if f.startswith(prop + "-"):
+                    os.remove(os.path.join(rdir, f))
         self.violations = []     # (replay path, text)
         self.known = []          # summaries printed as KNOWN-FINDING
 
